@@ -11,7 +11,8 @@
 * every decision of the schedule comes from a *tape* (list of ints); unexplored tapes are enumerated
   depth first from the (choice, arity) log of the previous run, so a scenario's schedules are exhausted
   systematically (or capped and then sampled from VERIF_SEED);
-* what is recorded: the environment trace for the model (recv / send / extract / silence / …), every
+* what is recorded: the environment trace for the model (recv / send / try / extract / silence / …; "try" =
+  one call of `Fandango._extends_history` with the candidate's protocol messages and its verdict), every
   `party.send` call, every `party.receive` call with its true recipient, the forecasts the real forecaster
   produced, the result tree's protocol messages, error classes, the buffer at the end.
 """
@@ -86,6 +87,7 @@ class World:
         self.fault_done: Optional[str] = None
         self.forecasts: list = []             # what the real forecaster said, per loop iteration
         self.errors: list = []                # print_exception calls
+        self.tries: dict = {True: 0, False: 0}  # verdicts of _extends_history
         self.ticks = 0
         self.in_delivery = False
         self.bytes_mode = info["bytes"]
@@ -292,6 +294,21 @@ def install() -> None:
                 w.forecasts.append({"h": None, "crash": type(e).__name__})
     PacketSelector.compute = compute_wrapped
 
+    # the guard of the fuzzer's send (since bd6395f0); a source without it simply has no "try" events
+    real_extends = getattr(ALG.Fandango, "_extends_history", None)
+    if real_extends is not None:
+        def extends_wrapped(history_tree, candidate):
+            verdict = real_extends(history_tree, candidate)
+            w = CUR["w"]
+            if w is not None:
+                try:
+                    w.trace.append(["try", history_of(candidate, w.bytes_mode), bool(verdict)])
+                    w.tries[bool(verdict)] += 1
+                except Exception as e:  # noqa — a candidate whose messages cannot be rendered: recorded, not judged
+                    w.tries["unrenderable:" + type(e).__name__] = w.tries.get("unrenderable:" + type(e).__name__, 0) + 1
+            return verdict
+        ALG.Fandango._extends_history = staticmethod(extends_wrapped)
+
     sys.modules["c20world"] = types.SimpleNamespace(
         on_send=lambda p, m, r: CUR["w"].on_send(p, m, r) if CUR["w"] else None,
         register=lambda io: _register(io))
@@ -384,7 +401,8 @@ def run_case(spec: str, info: dict, scenario: dict, tape: list[int], nexts: dict
         CUR["w"] = None
     obs.update({"trace": w.trace, "sends": w.sends, "delivered": w.delivered, "forecasts": w.forecasts,
                 "errors": w.errors, "fault_done": w.fault_done, "tape_log": w.tape.log, "ticks": w.ticks,
-                "peer_hist": [list(x) for x in w.hist], "undelivered": len(w.pending)})
+                "peer_hist": [list(x) for x in w.hist], "undelivered": len(w.pending),
+                "tries": {str(k): v for k, v in w.tries.items()}})
     # a fresh front end, fresh constraint objects: judge the recorded interaction once more
     if tree is not None:
         try:
